@@ -339,7 +339,9 @@ def has_conditional_existence(graph: nx.MultiDiGraph, start_nodes: Set[DSGNode],
             if get_edge_type(edge) != EdgeType.DERIVES:
                 continue
 
-            if edge[0] in in_walk_back:
+            # Skip nodes we are currently walking back from (loops); nodes of which the walk has been completed
+            # (e.g. via another in-edge) are answered from the cache
+            if edge[0] in in_walk_back and edge[0] not in traversed:
                 continue
 
             # If any of the previous nodes is always derived from an external function node, we are too
